@@ -80,6 +80,7 @@ type c16RouteOut struct {
 	classes   map[string]bool
 	delivered int
 	overlap   int
+	notes     []string
 }
 
 func c16RouteRun(c c16RouteCase) (out c16RouteOut) {
@@ -395,6 +396,7 @@ func c16RouteRun(c c16RouteCase) (out c16RouteOut) {
 					}
 				} else {
 					out.classes["inconclusive-exchange-failed"] = true
+					out.notes = append(out.notes, fmt.Sprintf("exchange failed on the accept side of a %s session: %v", s.Kind, p.xerr))
 				}
 			} else {
 				if s.Kind == "cancel" || s.Kind == "lonely" {
@@ -425,6 +427,7 @@ func c16RouteRun(c c16RouteCase) (out c16RouteOut) {
 				out.classes["unregistered-dial-refused"] = true
 			} else if s.Kind == "pair" && s.WaitReg {
 				out.classes["inconclusive-dial-failed"] = true
+				out.notes = append(out.notes, fmt.Sprintf("pair dial failed after %v (started %v after the scenario began, %d sessions): %v", p.returned.Sub(p.started).Round(time.Millisecond), p.started.Sub(t0).Round(time.Millisecond), n, p.err))
 			}
 		}
 	}
@@ -454,6 +457,11 @@ func c16RouteCheck(t vh.Fataler, rec *vh.Rec, c c16RouteCase) {
 	classes = append(classes, fmt.Sprintf("sessions-%02d+", len(c.Sessions)/8*8))
 	rec.Case(out.overlap > 0, vh.Digest(c), c, classes...)
 	rec.ClassN("connections-delivered", int64(out.delivered))
+	for i, nt := range out.notes {
+		if i < 3 {
+			rec.Note("inconclusive: %s", nt)
+		}
+	}
 	if out.key == "harness" {
 		t.Fatalf("harness problem: %s", out.msg)
 	}
